@@ -1,5 +1,5 @@
 (* C01 — isolation (plan level): systems placed side by side never conflict. *)
-From Shred Require Import Base SrcParams Plan PlanObs PlanLemmas PlanInv PlanLoc PlanBuild PlanProps Exec ExecProps ExecPlan BatchProps OracleProps ExecObs TraceOracles ExecOracles AcceptComplete.
+From Shred Require Import PlanRec PlanRecProps Base SrcParams Plan PlanObs PlanLemmas PlanInv PlanLoc PlanBuild PlanProps Exec ExecProps ExecPlan BatchProps OracleProps ExecObs TraceOracles ExecOracles AcceptComplete.
 
 (* For every registration program: two systems in different groups of one stage have no
    W/W, W/R or R/W overlap of their declared access. *)
@@ -85,3 +85,11 @@ Example C01_example :
   let rs := [RSys 1 [] [] [8] [] 3%Z; RSys 2 [] [] [] [8] 3%Z; RSys 3 [] [] [8] [9] 3%Z] in
   exists b, plan rs = Ok b /\ layout_tags b = [[[1]; [3]]; [[2]]]%N.
 Proof. eexists. split; vm_compute; reflexivity. Qed.
+
+(* a builder that was used on after caught panics of rejected registrations ([plan_rec], see props/C18.v) keeps
+   the isolation of side-by-side groups, for the ACCEPTED registrations *)
+Theorem C01_recovered_builder_isolates :
+  forall rs, regs_times_ok rs -> NoDup (sys_tags rs) ->
+  o_isolated (accepted rs) (layout_tags (plan_rec rs)) = true.
+Proof. exact rec_isolated. Qed.
+Print Assumptions C01_recovered_builder_isolates.
